@@ -902,9 +902,27 @@ class FnTranslator:
         if val[2] != sh[1]:
             self.fail(st, f"store of a {shape_str(val[2])} into a list of {shape_str(sh[1])}")
         ln2 = self.fresh(nm)
-        pre = pre + p2 + [("let", ln2, f"pySetItem {ln} {idx[1]} {val[1]}", None)]
+        # a local created by `bytearray(n)` (third round): the store checks the byte range
+        setter = "pySetByte" if nm in self.bytearray_names() else "pySetItem"
+        pre = pre + p2 + [("let", ln2, f"{setter} {ln} {idx[1]} {val[1]}", None)]
         env.d[nm] = (ln2, sh)
         return self.wrap_pre(pre, rest(env))
+
+    def bytearray_names(self):
+        """local names bound by `name = bytearray(..)`; such a name must not be bound in any other way (third round)"""
+        if not hasattr(self, "_ba_names"):
+            ba, other = set(), set()
+            for n in ast.walk(self.node):
+                if isinstance(n, ast.Assign) and len(n.targets) == 1 and isinstance(n.targets[0], ast.Name):
+                    is_ba = isinstance(n.value, ast.Call) and isinstance(n.value.func, ast.Name) and n.value.func.id == "bytearray"
+                    (ba if is_ba else other).add(n.targets[0].id)
+                elif isinstance(n, (ast.AugAssign, ast.AnnAssign, ast.For)) and isinstance(n.target, ast.Name):
+                    other.add(n.target.id)
+            params = {a.arg for a in self.node.args.args}
+            if ba & (other | params):
+                self.fail(self.node, "a `bytearray` local is also bound to something else")
+            self._ba_names = ba
+        return self._ba_names
 
     def expr_stmt(self, st, env, rest):
         v = st.value
@@ -1712,6 +1730,23 @@ class FnTranslator:
             return pre, ("pure", "(" + ", ".join(comps) + ")", NT(node.func.id))
         if isinstance(node.func, ast.Name) and node.func.id not in env.d:
             f = node.func.id
+            if f == "isinstance" and len(node.args) == 2 and not node.keywords:
+                # third round: `isinstance(x, int)` / `isinstance(x, np.intN)` of an integer value: a test of the run-time tag
+                t = "py" if (isinstance(node.args[1], ast.Name) and node.args[1].id == "int" and "int" not in env.d) \
+                    else self.np_type(node.args[1])
+                if t is None:
+                    self.fail(node, "`isinstance` against something other than `int` / `np.intN`")
+                pre, a = self.expr(node.args[0], env)
+                if a[2] != N:
+                    self.fail(node, "`isinstance` of something that is not a number")
+                return pre, ("pure", f"(Num.isinst {a[1]} Ty.{t})", B)
+            if f == "bytearray" and len(node.args) == 1 and not node.keywords:
+                # third round: `bytearray(n)` with an integer count (a list of zero bytes; stores go through `pySetByte`)
+                pre, (a,) = self.args_of(node, env, 1)
+                if a[2] != N:
+                    self.fail(node, "`bytearray` of something that is not an integer count")
+                r = self.tmp()
+                return pre + [("let", r, f"pyByteArray {a[1]}", None)], ("atom", r, L(N))
             if f == "int":
                 pre, (a,) = self.args_of(node, env, 1)
                 if a[2] == B:
